@@ -243,9 +243,9 @@ theorem active_fst_sublist (eps0 : α) : ∀ (pairs : List (Pair α)) (alphas : 
     · simp only [List.map_cons]
       exact (active_fst_sublist eps0 ps as).cons_cons _
 
-theorem deleteAbove_sublist (thres : α) (act : List (Pair α × α)) :
-    (deleteAbove thres act).Sublist (act.map (·.1)) := by
-  unfold deleteAbove
+theorem deleteFrom_sublist (thres : α) (act : List (Pair α × α)) :
+    (deleteFrom thres act).Sublist (act.map (·.1)) := by
+  unfold deleteFrom
   exact List.filter_sublist.map _
 
 end NanoVerif.Bundle
